@@ -1,5 +1,6 @@
 import PoaVerif.Model.Trig
 import PoaVerif.Model.Pre
+import PoaVerif.Model.Quiet
 import PoaVerif.Facts
 /-
   Line-protocol driver: reads operation lines (Tie B protocol, DESIGN.md appendix A) on stdin,
@@ -200,6 +201,7 @@ partial def runBlocks (s : App) (set : CSet) (halted : Bool) : P Unit := do
         for t in trigLines theEnv s b do out t
         let pre := match App.beforeEnd theEnv s b with | .ok (_, sp) => Pre sp set | .error _ => false
         out s!"PRE {if pre then 1 else 0}"
+        out s!"QUIET {if App.quietBlockB s set b then 1 else 0}"
         out "STEP 0"
         out (match hk with | .panic => "HALT panic" | .error => "HALT error")
         runBlocks s set true
@@ -213,6 +215,7 @@ partial def runBlocks (s : App) (set : CSet) (halted : Bool) : P Unit := do
         out ("UPD" ++ pairs bo.updates)
         let pre := match App.beforeEnd theEnv s b with | .ok (_, sp) => Pre sp set | .error _ => false
         out s!"PRE {if pre then 1 else 0}"
+        out s!"QUIET {if App.quietBlockB s set b then 1 else 0}"
         match Comet.applyChangeSet set bo.updates with
         | .error ce =>
           out s!"STEP 0"
